@@ -7,6 +7,16 @@ property's own words; the real binary's `torrent piece-length` table and `create
 import os, re, shutil, tempfile
 import lib
 
+MANIFEST = dict(
+    text="Machine-checked proof over the picker model for all 2^64 sizes (float path = ideal arithmetic under an explicit libm "
+         "hypothesis, power of two, bounds, monotone, closed form, published table regenerated from the book, constants regenerated "
+         "from the source), tied to the code by the translator and a hook/binary correspondence run. Right level: the property "
+         "quantifies over 2^64 inputs and a float edge region that sampling cannot settle.",
+    ref="DESIGN.md section 5, C15",
+    technique="Coq proof over a Gallina model + translator-generated tables + model/implementation correspondence run",
+    note="Assumed: libm log2 accuracy as stated by cl_ok (validated through the hook); round53 as defined in Model/Float53.v. "
+         "Trusted: Coq kernel, tools/rs2v.py, extraction (ExtrOcamlBasic), hook + harness, Python oracle.")
+
 KIB, MIB = 1 << 10, 1 << 20
 U64 = (1 << 64) - 1
 
